@@ -40,7 +40,7 @@ def bound(tier):
 
 
 def floors(tier):
-    return {"distinct_nontrivial": 40, "states": 300, "count:pinned_site_checks": 1000, "count:free_site_checks": 10000}
+    return {"distinct_nontrivial": 40, "states": 300, "count:pinned_site_checks": 1000, "count:free_site_checks": 10000, "count:steps_with_retries": 50}
 
 
 def cases(tier, seed):
@@ -62,6 +62,9 @@ def cases(tier, seed):
     # thermalisation first: the recorded stage (including its frame 0, the thermalised state) must hold the terminal value
     for d, v in itertools.product(devs[:2], VALUES):
         out.append(dict(fam="pin", dev=d, value=v, drive="tdep", screening=False, thermal=True))
+    # adaptive runs with coarse steps: refused updates are retried with a reduced step
+    for d, v, drive in itertools.product(devs[:2], VALUES, ("both", "current")):
+        out.append(dict(fam="pin", dev=d, value=v, drive=drive, screening=False, adaptive=True))
     # non-initial starts: the run is seeded with the final state of a run that used another terminal value
     for d in devs[:1] if quick else devs[:3]:
         for a, b in itertools.permutations(["None", "0", "1", "0.6+0.8j"], 2):
@@ -191,8 +194,13 @@ def run_pin(case, dev=None, path="out.h5", seed=None, reuse_options=None):
     v = VALUES[case["value"]]
     dt = 2.0**-6
     nsteps = 8
+    ad = {}
+    if case.get("adaptive"):
+        # coarse adaptive steps: updates are refused and retried with a reduced step; the terminal value holds on those steps too
+        dt, nsteps = 0.25, 12
+        ad = dict(dt_max=0.5, adaptive=True, adaptive_window=2, adaptive_time_step_multiplier=0.25, max_solve_retries=12)
     opts = tdgl.SolverOptions(
-        solve_time=nsteps * dt, dt_init=dt, dt_max=dt, adaptive=False, save_every=1, output_file=path, terminal_psi=v,
+        solve_time=nsteps * dt, dt_init=dt, **{**dict(dt_max=dt, adaptive=False), **ad}, save_every=1, output_file=path, terminal_psi=v,
         include_screening=case["screening"], screening_tolerance=1e-2, progress_interval=10**9, skip_time=(3 * dt if case.get("thermal") else 0.0),
     )
     if reuse_options is not None:
@@ -201,12 +209,27 @@ def run_pin(case, dev=None, path="out.h5", seed=None, reuse_options=None):
             setattr(reuse_options, f, getattr(opts, f))
         opts = reuse_options
     kw = _drive(case["dev"], case["drive"])
+    retried = {"n": 0}
+    if case.get("adaptive"):
+        orig_step = tdgl.TDGLSolver.adaptive_euler_step
+
+        def counting_step(self, step, psi, abs_sq_psi, mu, epsilon, dt_):
+            out = orig_step(self, step, psi, abs_sq_psi, mu, epsilon, dt_)
+            if out[2] < dt_:
+                retried["n"] += 1
+            return out
+
+        tdgl.TDGLSolver.adaptive_euler_step = counting_step
     try:
         tdgl.solve(dev, opts, seed_solution=seed, **kw)
     except RuntimeError as exc:
         if "converge" not in str(exc):
             raise
         res.count("solver_refused")
+    finally:
+        if case.get("adaptive"):
+            tdgl.TDGLSolver.adaptive_euler_step = orig_step
+            res.count("steps_with_retries", retried["n"])
     rm = drivers.read_raw_mesh(path)
     bsites = np.unique(rm.edges[rm.bidx].ravel())
     xi = dev.layer.coherence_length
